@@ -63,6 +63,8 @@ func main() {
 			}
 		case "wrapper":
 			x.oneWrapper(&typeDesc{name: "forward+carbons"}, c.Seed)
+		case "tzo":
+			x.tzoCases(hx.NewRand(o.Seed), 0)
 		}
 	} else {
 		nForm, nVal, nDoc := 700, 70, 110
@@ -74,6 +76,7 @@ func main() {
 		}
 		// corpus first
 		x.nilSubmit()
+		x.tzoCases(r, nVal*3)
 		for i, s := range formCorpus {
 			x.runForm(s, caseRec{Type: "form.Data", Kind: "form-corpus", Index: i})
 		}
@@ -162,5 +165,41 @@ func (x *runner) mutatedDocs(td *typeDesc, r *hx.Rand, docs [][]byte, n int) {
 			}
 		}
 		x.oneDoc(td, renderDoc(t, r.Chance(1, 8)), note)
+	}
+}
+
+// tzoCases ties the model's zone offset formatter and reader (format_tzo,
+// parse_tzo) to package time's "Z07:00" layout: for every zone of the generator
+// and n more offsets, the text the standard library writes and the offset it
+// reads back from it.
+func (x *runner) tzoCases(r *hx.Rand, n int) {
+	var offs []int
+	for _, l := range zones {
+		_, o := time.Unix(0, 0).In(l).Zone()
+		offs = append(offs, o)
+	}
+	for i := 0; i < n; i++ {
+		switch r.Intn(3) {
+		case 0:
+			offs = append(offs, (r.Intn(2*1439+1)-1439)*60) // whole minutes within a day
+		case 1:
+			offs = append(offs, r.Intn(2*86399+1)-86399) // any second within a day
+		default:
+			offs = append(offs, (r.Intn(2*23+1)-23)*3600+[]int{0, 15, 30, 45}[r.Intn(4)]*60*(1-2*r.Intn(2)))
+		}
+	}
+	for _, o := range offs {
+		if o <= -86400 || o >= 86400 {
+			continue
+		}
+		txt := time.Unix(0, 0).In(time.FixedZone("", o)).Format("Z07:00")
+		back := "None"
+		if t, err := time.Parse("Z07:00", txt); err == nil {
+			_, b := t.Zone()
+			back = fmt.Sprintf("(Some (%d)%%Z)", b)
+		}
+		c := caseRec{Type: "time/tzo", Kind: "tzo", Value: fmt.Sprintf("offset=%d text=%q", o, txt)}
+		x.res.Count("tzo"+c.Value, true, "type/time-zone-offset")
+		x.cases.Add(fmt.Sprintf("tzo_ok (%d)%%Z %s %s", o, hx.CoqBytes([]byte(txt)), back), c)
 	}
 }
